@@ -3,10 +3,12 @@ package checks
 // C08 - a file handle denotes one object for ever; stale handles stay stale.
 
 import (
+	"bytes"
 	"fmt"
 	"os"
 	"strings"
 	"sync"
+	"sync/atomic"
 	"testing"
 	"time"
 
@@ -449,4 +451,196 @@ func TestC08GateCrash(t *testing.T) {
 		}
 		St.NT(Hash("gate", x.Log, progs))
 	})
+}
+
+// A request is between dropping its locks and taking them again (LOOKUP/REMOVE of a child with a smaller
+// inode number than its directory does that) while another client moves the child out, removes the directory,
+// creates a new directory that gets the same inode number (the inode table is otherwise full) and moves the
+// child into it under the same name.  The first request holds the handle of a deleted directory: it must not
+// act on the new one.  Enumerated: request kind x lock/commit point at which it is held x write mode.
+func TestC08Reuse(t *testing.T) {
+	inodeFullOnce.Do(buildInodeFullImage)
+	shard, nshards := EnvInt("VERIF_SHARD", 0), EnvInt("VERIF_NSHARDS", 1)
+	St.Exhaustive(true)
+	type rcase struct {
+		Kind     string
+		Hook     int
+		Unstable bool
+	}
+	var cases []rcase
+	for _, k := range []string{"remove", "rename", "lookup", "setattr-child"} {
+		for h := 0; h < 5; h++ {
+			for _, u := range []bool{true, false} {
+				cases = append(cases, rcase{k, h, u})
+			}
+		}
+	}
+	nrun, nreused, npaused := 0, 0, 0
+	for i, rc := range cases {
+		if i%nshards != shard {
+			continue
+		}
+		d := NewDiskFrom(inodeFullDisk, inodeFullImg)
+		d.SetRecord(false)
+		s := StartSrv(d, rc.Unstable, false)
+		api := s.API()
+		root := s.RootFH()
+		var hist []string
+		logf := func(format string, a ...any) { hist = append(hist, fmt.Sprintf(format, a...)) }
+		fail := func(format string, a ...any) {
+			msg := fmt.Sprintf(format, a...)
+			detail := map[string]any{"case": fmt.Sprintf("%+v", rc), "history": hist}
+			St.Violation("C08", msg, detail)
+			t.Fatalf("C08: %s\n%s", msg, strings.Join(hist, "\n"))
+		}
+		lookup := func(dir nt.Nfs_fh3, name string) (nt.Nfs_fh3, uint64, nt.Nfsstat3) {
+			r := api.NFSPROC3_LOOKUP(nt.LOOKUP3args{What: nt.Diropargs3{Dir: dir, Name: nt.Filename3(name)}})
+			return r.Resok.Object, uint64(r.Resok.Obj_attributes.Attributes.Fileid), r.Status
+		}
+		remove := func(dir nt.Nfs_fh3, name string) nt.Nfsstat3 {
+			return api.NFSPROC3_REMOVE(nt.REMOVE3args{Object: nt.Diropargs3{Dir: dir, Name: nt.Filename3(name)}}).Status
+		}
+		rename := func(fd nt.Nfs_fh3, fn string, td nt.Nfs_fh3, tn string) nt.Nfsstat3 {
+			return api.NFSPROC3_RENAME(nt.RENAME3args{From: nt.Diropargs3{Dir: fd, Name: nt.Filename3(fn)}, To: nt.Diropargs3{Dir: td, Name: nt.Filename3(tn)}}).Status
+		}
+		// two free inode numbers, a low and a high one
+		p0, _, st0 := lookup(root, inodeFullDirs[0])
+		p1, _, st1 := lookup(root, inodeFullDirs[1])
+		if st0 != nt.NFS3_OK || st1 != nt.NFS3_OK || remove(p0, "p5") != nt.NFS3_OK || remove(p1, "p5") != nt.NFS3_OK {
+			s.Stop()
+			t.Fatalf("harness: prefilled image not as expected")
+		}
+		c1 := api.NFSPROC3_CREATE(nt.CREATE3args{Where: nt.Diropargs3{Dir: root, Name: "g1"}})
+		c2 := api.NFSPROC3_CREATE(nt.CREATE3args{Where: nt.Diropargs3{Dir: root, Name: "g2"}})
+		if c1.Status != nt.NFS3_OK || c2.Status != nt.NFS3_OK {
+			s.Stop()
+			t.Fatalf("harness: setup creations failed: %d %d", c1.Status, c2.Status)
+		}
+		lo, hi := "g1", "g2"
+		loid, hiid := uint64(c1.Resok.Obj_attributes.Attributes.Fileid), uint64(c2.Resok.Obj_attributes.Attributes.Fileid)
+		fh := c1.Resok.Obj.Handle
+		if loid > hiid {
+			lo, hi, loid, hiid, fh = hi, lo, hiid, loid, c2.Resok.Obj.Handle
+		}
+		remove(root, hi)
+		md := api.NFSPROC3_MKDIR(nt.MKDIR3args{Where: nt.Diropargs3{Dir: root, Name: "d"}})
+		if md.Status != nt.NFS3_OK || uint64(md.Resok.Obj_attributes.Attributes.Fileid) != hiid {
+			s.Stop()
+			t.Fatalf("harness: the directory did not get the only free inode number (%d): status %d", hiid, md.Status)
+		}
+		dh := md.Resok.Obj.Handle
+		if st := rename(root, lo, dh, "f"); st != nt.NFS3_OK {
+			s.Stop()
+			t.Fatalf("harness: setup rename failed: %d", st)
+		}
+		logf("inode table full; directory /d has inode %d, its only entry f has inode %d", hiid, loid)
+		// client 0, held at its hook-th lock/commit point
+		mon := s.Mon()
+		reached, othersDone := make(chan struct{}), make(chan struct{})
+		var reachedOnce sync.Once
+		var gid0 uint64
+		var nhook int32
+		paused := false
+		mon.SetYield(func(point string) {
+			if goid() != atomic.LoadUint64(&gid0) {
+				return
+			}
+			if int(atomic.AddInt32(&nhook, 1))-1 != rc.Hook {
+				return
+			}
+			paused = true
+			reachedOnce.Do(func() { close(reached) })
+			select {
+			case <-othersDone:
+			case <-time.After(150 * time.Millisecond):
+			}
+		})
+		var st0c nt.Nfsstat3
+		var lfh nt.Nfs_fh3
+		done0 := make(chan struct{})
+		var r1, r2, r3, r4 nt.Nfsstat3
+		var eid uint64
+		var eh nt.Nfs_fh3
+		o := Guard(30*time.Second, func() {
+			go func() {
+				defer close(done0)
+				defer reachedOnce.Do(func() { close(reached) })
+				atomic.StoreUint64(&gid0, goid())
+				switch rc.Kind {
+				case "remove":
+					st0c = remove(dh, "f")
+				case "rename":
+					st0c = rename(dh, "f", dh, "g")
+				case "lookup":
+					lfh, _, st0c = lookup(dh, "f")
+				case "setattr-child":
+					// not through the directory at all: must simply keep working
+					st0c = api.NFSPROC3_SETATTR(nt.SETATTR3args{Object: fh, New_attributes: nt.Sattr3{Size: nt.Set_size3{Set_it: true, Size: 10}}}).Status
+				}
+			}()
+			<-reached
+			r1 = rename(dh, "f", root, "t")
+			r2 = api.NFSPROC3_RMDIR(nt.RMDIR3args{Object: nt.Diropargs3{Dir: root, Name: "d"}}).Status
+			me := api.NFSPROC3_MKDIR(nt.MKDIR3args{Where: nt.Diropargs3{Dir: root, Name: "e"}})
+			r3, eh, eid = me.Status, me.Resok.Obj.Handle, uint64(me.Resok.Obj_attributes.Attributes.Fileid)
+			if r3 == nt.NFS3_OK {
+				r4 = rename(root, "t", eh, "f")
+			}
+			close(othersDone)
+			<-done0
+		})
+		mon.SetYield(nil)
+		logf("client 0: %s through the handle of /d (held at its lock/commit point #%d: %v) -> %d", rc.Kind, rc.Hook, paused, st0c)
+		logf("client 1 meanwhile: RENAME /d/f -> /t: %d; RMDIR /d: %d; MKDIR /e: %d (inode %d); RENAME /t -> /e/f: %d", r1, r2, r3, eid, r4)
+		if o.Slow {
+			s.Stop()
+			continue
+		}
+		if o.Hung || o.Panic != "" {
+			fail("the requests did not return: %s %s", o.Why, o.Panic)
+		}
+		nrun++
+		if paused {
+			npaused++
+		}
+		reused := r1 == nt.NFS3_OK && r2 == nt.NFS3_OK && r3 == nt.NFS3_OK && r4 == nt.NFS3_OK && eid == hiid
+		if reused {
+			nreused++
+			if paused {
+				St.NT(Hash("c08reuse", i))
+			}
+		}
+		switch rc.Kind {
+		case "remove", "rename":
+			// both "f was moved out of /d" and "f was removed from / renamed inside /d" cannot have happened
+			if r1 == nt.NFS3_OK && st0c == nt.NFS3_OK {
+				fail("%s of f through the handle of the deleted directory /d succeeded although f had been moved out of /d before: it acted on the new directory /e that got /d's inode number", strings.ToUpper(rc.Kind))
+			}
+		case "lookup":
+			if st0c == nt.NFS3_OK && !bytes.Equal(lfh.Data, fh.Data) {
+				fail("LOOKUP returned another object's handle")
+			}
+		case "setattr-child":
+			if st0c != nt.NFS3_OK {
+				fail("SETATTR through the live handle of f failed with %d while f was being moved", st0c)
+			}
+		}
+		if reused {
+			got, _, st := lookup(eh, "f")
+			if st0c != nt.NFS3_OK || rc.Kind == "lookup" || rc.Kind == "setattr-child" {
+				if st != nt.NFS3_OK || !bytes.Equal(got.Data, fh.Data) {
+					fail("after everything returned, /e/f is gone (LOOKUP: %d) although no successful request removed it", st)
+				}
+			}
+			// the old handle is dead for every later request
+			if _, _, st := lookup(dh, "f"); st != nt.NFS3ERR_STALE {
+				fail("LOOKUP through the handle of the deleted directory /d answers %d, not STALE (inode %d now belongs to /e)", st, hiid)
+			}
+		}
+		s.Stop()
+		St.Eval(1)
+	}
+	St.ClassN("cases_where_the_new_directory_reused_the_inode_number", nreused)
+	St.ClassN("cases_with_the_request_held_inside_its_window", npaused)
+	St.Sample(map[string]any{"kind": "stale directory handle vs. reuse of its inode number under a held request", "cases_in_this_shard": nrun, "reused": nreused}, true)
 }
